@@ -35,7 +35,7 @@ CHECKS.update({
  "C08": dict(engine="E1 seq + E3 coro", cat="fault_enumeration", ref="6 C08",
    technique="exhaustive single-fault (thorough: double-fault) injection at every callback invocation, every operation ending and every coroutine suspension point of real policy calls; spy breaker + functional probe oracle",
    text="For 12 entry paths and both admitting breaker states (closed, half-open probe) every way an admitted call can end is enumerated: each operation ending at each attempt, each callback raising at each invocation, and CancelledError/KeyboardInterrupt/SystemExit/close() at each await. After the call the spy breaker must have a record and, once recovery_timeout_s has elapsed, the next allow() must be admitted.",
-   note="max_attempts 2 (3 thorough await family); coroutines driven by send/throw/close and as Tasks on a virtual event loop (Task.cancel between any two iterations, with and without attempt_timeout_s); breaker re-pointed or attached by attribute assignment; the probe of a second trip/recovery cycle after the call must be admitted too"),
+   note="max_attempts 2 (3 thorough await family); coroutines driven by send/throw/close and as Tasks on a virtual event loop (Task.cancel between any two iterations, with and without attempt_timeout_s); breaker re-pointed or attached by attribute assignment; the probe of a second trip/recovery cycle after the call must be admitted too; observability hooks raising BaseExceptions at the admission event; falsy breaker subclasses; coroutines closed before their first step or hopping OS threads"),
  "C09": dict(engine="E1 seq", cat="model_checking", ref="6 C09",
    technique="exhaustive outcome sequences x deviation-bounded stop reasons x call sequences on a logging subclass of the real CircuitBreaker; per-call record oracle",
    text="Policy/AsyncPolicy call/execute with and without retry: for every outcome sequence and stop reason and for sequences of calls sharing one breaker, each admitted call must make exactly one record after its last invocation: success iff a value was delivered, failure(K) with the final failure's class iff retries stopped on a failure or deferral, cancel iff aborted/cancelled; rejected calls none.",
